@@ -157,3 +157,33 @@ func ZZ_C20_BarrierWithBusyQueue() {
 	zzAccounted(s, "final")
 	vfReach("all-returned")
 }
+
+// ZZ_C20_TwoBarriers: two goroutines each write and then wait. Each Wait covers the caller's own earlier writes,
+// whatever the other goroutine's Wait is doing at the time (a marker answered for one caller says nothing
+// about writes the other caller queued after that marker).
+func ZZ_C20_TwoBarriers() {
+	var notes []zzNote
+	s := zzThreadedStore(10, &notes)
+	vfSetPreemptions(vfConfig("PRE", 1))
+	done := make(chan int, 2)
+	for i := 0; i < 2; i++ {
+		i := i
+		go func() {
+			base := uint64(10 * (i + 1))
+			for r := 0; r < vfConfig("ROUNDS", 1); r++ {
+				k := base + uint64(r)
+				s.Set(k, 100+k, 2, 0)
+				s.Wait()
+				e, ok := s.shards[zzIndex(s, k)].hashmap[k]
+				vfAssert("barrier:own-write-applied", ok && e.policyWeight == 2 && e.meta.prev != nil)
+			}
+			done <- 1
+		}()
+	}
+	<-done
+	<-done
+	vfSetPreemptions(0)
+	s.Wait()
+	zzAccounted(s, "final")
+	vfReach("all-returned")
+}
